@@ -9,7 +9,7 @@ import re
 from astu import C, ctxt, gt_pair, eq_const, reach, reach_txt, ctext, strip, walk, txt, short, functions_by
 from vlib.core import ob, VERIF
 
-VERBS = re.compile(r"^(resize|rebuild|compress|compact|grow|purge|shrink|flush|move_window|promote|switch_to|convert|reduce_k|trim|sort|merge_|shift|downsample|upsize|internal_|process_|add_empty|ensure_|zip_|check_grow|checkGrow|growAux|growHash)")
+VERBS = re.compile(r"^(resize|rebuild|compress|compact|grow|purge|shrink|flush|move_window|promote|switch_to|convert|reduce_k|trim|sort|merge_|shift|downsample|upsize|internal_|process_|add_empty|ensure_|zip_|check_grow|checkGrow|growAux|growHash|mergeHll|mergeList|copyAs|copy_or_downsample)")
 FLIP = {"<": ">", ">": "<", "<=": ">=", ">=": "<=", "==": "==", "!=": "!="}
 
 
